@@ -81,6 +81,9 @@ func (f *Flat) CheckChain(r *Report, rule string, fi *FuncInfo, steps []step) bo
 			f = g
 		}
 	}
+	// flags that correlate a helper's early exit with the caller's test of it (known, ok): paths with different
+	// constants are kept apart
+	f = f.SplitBools()
 	sites := make([][]callSite, len(steps))
 	for i, s := range steps {
 		sites[i] = f.CallSites(s.Keys...)
